@@ -142,6 +142,8 @@ def assemble(idx):
     from miasm.core import parse_asm, asmblock
     from miasm.core.locationdb import LocationDB
     from miasm.loader.strpatchwork import StrPatchwork
+    import logging
+    logging.getLogger("x86_arch").setLevel(logging.ERROR)      # "dynamic dst" of CALL ECX is expected
     loc_db = LocationDB()
     asmcfg = parse_asm.parse_txt(mn_x86, 32, FUNCS[idx][1], loc_db)
     loc_db.set_location_offset(loc_db.get_name_location("main"), BASE)
